@@ -293,11 +293,12 @@ func (fc *FnCtx) appendOp(fr *Frame, st *State, reach string, s, extra Val) Val 
 		inner := fc.sc.fresh("appi", "(Array Int "+sort+")")
 		oldInner := tSel(cur, s.Arr)
 		// prefix preserved (and everything outside the appended window when in place)
-		fc.sc.assume("(forall ((j Int)) (! (=> (and (<= 0 j) (< j " + s.Len + ")) (= (select " + inner + " (+ " + res.Off + " j)) (select " + oldInner + " (+ " + s.Off + " j)))) :pattern ((select " + inner + " (+ " + res.Off + " j)))))")
-		fc.sc.assume(tImp(fits, "(forall ((j Int)) (! (=> (or (< j (+ "+s.Off+" "+s.Len+")) (>= j (+ "+s.Off+" "+newLen+"))) (= (select "+inner+" j) (select "+oldInner+" j))) :pattern ((select "+inner+" j))))"))
+		fc.sc.assume("(forall ((k Int)) (! (=> (and (<= " + res.Off + " k) (< k (+ " + res.Off + " " + s.Len + "))) (= (select " + inner + " k) (select " + oldInner + " (+ (- k " + res.Off + ") " + s.Off + ")))) :pattern ((select " + inner + " k))))")
+		fc.sc.assume(tImp(fits, "(forall ((k Int)) (! (=> (or (< k (+ "+s.Off+" "+s.Len+")) (>= k (+ "+s.Off+" "+newLen+"))) (= (select "+inner+" k) (select "+oldInner+" k))) :pattern ((select "+inner+" k))))"))
 		if extra.K == KSlice {
 			src := tSel(cur, extra.Arr)
-			fc.sc.assume("(forall ((j Int)) (! (=> (and (<= 0 j) (< j " + n + ")) (= (select " + inner + " (+ " + res.Off + " " + s.Len + " j)) (select " + src + " (+ " + extra.Off + " j)))) :pattern ((select " + inner + " (+ " + res.Off + " " + s.Len + " j)))))")
+			lo2 := "(+ " + res.Off + " " + s.Len + ")"
+			fc.sc.assume("(forall ((k Int)) (! (=> (and (<= " + lo2 + " k) (< k (+ " + lo2 + " " + n + "))) (= (select " + inner + " k) (select " + src + " (+ (- k " + lo2 + ") " + extra.Off + ")))) :pattern ((select " + inner + " k))))")
 		}
 		st.heap[l.name] = fc.nameTerm("ha", l.arraySort(), tStore(cur, res.Arr, inner))
 		fc.noteWrite(l.name)
@@ -331,9 +332,9 @@ func (fc *FnCtx) copyOp(fr *Frame, st *State, reach string, dst, src Val) Val {
 		fc.sc.assume("(forall ((j Int)) (! (=> (or (< j " + lo + ") (>= j " + hi + ")) (= (select " + inner + " j) (select " + oldInner + " j))) :pattern ((select " + inner + " j))))")
 		if src.K == KSlice {
 			srcInner := tSel(cur, src.Arr)
-			fc.sc.assume("(forall ((j Int)) (! (=> (and (<= 0 j) (< j " + n + ")) (= (select " + inner + " (+ " + dst.Off + " j)) (select " + srcInner + " (+ " + src.Off + " j)))) :pattern ((select " + inner + " (+ " + dst.Off + " j)))))")
+			fc.sc.assume("(forall ((k Int)) (! (=> (and (<= " + lo + " k) (< k " + hi + ")) (= (select " + inner + " k) (select " + srcInner + " (+ (- k " + dst.Off + ") " + src.Off + ")))) :pattern ((select " + inner + " k))))")
 		} else {
-			fc.sc.assume("(forall ((j Int)) (! (=> (and (<= 0 j) (< j " + n + ")) (= (select " + inner + " (+ " + dst.Off + " j)) (str.to_code (str.at " + src.S + " j)))) :pattern ((select " + inner + " (+ " + dst.Off + " j)))))")
+			fc.sc.assume("(forall ((k Int)) (! (=> (and (<= " + lo + " k) (< k " + hi + ")) (= (select " + inner + " k) (str.to_code (str.at " + src.S + " (- k " + dst.Off + "))))) :pattern ((select " + inner + " k))))")
 			fc.sc.assume(tEq(sx("str_of_bytes", inner, dst.Off, n), sx("str.substr", src.S, "0", n)))
 		}
 		st.heap[l.name] = fc.nameTerm("hc", l.arraySort(), tStore(cur, dst.Arr, inner))
